@@ -279,77 +279,10 @@ def run(E: Engine, rep: Report, tier: str) -> dict:
     rep.floor("OWN", 6)
 
     # -------------------------------------------------------------- ARGS
-    # The replay rewrites recorded calls.  A recorded call keeps the caller's own split between positional and
-    # keyword arguments, so `args[k]` exists only if parameter k of the replayed method was passed positionally:
-    # it must have no default (or a length guard) and the path must have excluded its keyword form.
-    n_args = 0
-    for top in (sw, E.method(SEQ, "switch_register")):
-        for g in [top] + list(top.nested.values()):
-            abg = None
-            for loop in own_nodes(g):
-                if not (isinstance(loop, ast.For) and isinstance(loop.target, ast.Name) and "_calls" in norm(loop.iter)):
-                    continue
-                cv = loop.target.id
-                a_alias, k_alias = {f"{cv}.args"}, {f"{cv}.kwargs"}
-                for n in ast.walk(loop):
-                    if isinstance(n, ast.Assign) and len(n.targets) == 1 and isinstance(n.targets[0], ast.Name):
-                        v = norm(n.value)
-                        if v in (f"list({cv}.args)", f"{cv}.args", f"[*{cv}.args]"):
-                            a_alias.add(n.targets[0].id)
-                        if v in (f"{cv}.kwargs.copy()", f"{cv}.kwargs", f"dict({cv}.kwargs)", f"{{**{cv}.kwargs}}"):
-                            k_alias.add(n.targets[0].id)
-                for n in ast.walk(loop):
-                    if isinstance(n, ast.Subscript) and norm(n.value) in a_alias and isinstance(n.slice, ast.Constant) and isinstance(n.slice.value, int) and n.slice.value >= 0:
-                        k = n.slice.value
-                    elif isinstance(n, ast.Call) and isinstance(n.func, ast.Attribute) and n.func.attr == "pop" and norm(n.func.value) in a_alias and len(n.args) == 1 and isinstance(n.args[0], ast.Constant) and isinstance(n.args[0].value, int) and n.args[0].value >= 0:
-                        k = n.args[0].value
-                    else:
-                        continue
-                    abg = abg or _abs(E.flow(g))
-                    n_args += 1
-                    problems = []
-                    for conj in abg.enclosing_conditions(n):
-                        pos, neg, kw_in, kw_out, guarded = set(), set(), set(), set(), False
-                        for l in conj:
-                            if "len(" in l.text and any(f"len({a})" in l.text for a in a_alias):
-                                guarded = True
-                            if l.atom is None:
-                                continue
-                            try:
-                                c = ast.parse(l.text, mode="eval").body
-                            except SyntaxError:
-                                continue
-                            if not (isinstance(c, ast.Compare) and len(c.ops) == 1):
-                                continue
-                            lt, rt = c.left, c.comparators[0]
-                            if norm(lt) == f"{cv}.name" and isinstance(rt, ast.Constant):
-                                (pos if l.atom.rel == "Eq" else neg if l.atom.rel == "NotEq" else set()).add(rt.value)
-                            if isinstance(lt, ast.Constant) and isinstance(lt.value, str) and norm(rt) in k_alias:
-                                (kw_in if l.atom.rel == "In" else kw_out if l.atom.rel == "NotIn" else set()).add(lt.value)
-                        if guarded or len(pos) != 1 or (pos & neg):
-                            continue  # length-guarded, undetermined or contradictory path
-                        mname = next(iter(pos))
-                        if mname not in SEQ_METHODS(E):
-                            continue
-                        m = E.method(SEQ, mname)
-                        params = m.params[1:]
-                        if any(q not in params for q in kw_in):
-                            continue  # this method has no such keyword: path infeasible for it
-                        if k >= len(params):
-                            problems.append(f"{mname} has only {len(params)} parameters")
-                            continue
-                        pk = params[k]
-                        if pk in kw_in:
-                            continue
-                        a = m.node.args
-                        n_def = len(a.defaults)
-                        has_default = params.index(pk) >= len(a.posonlyargs + a.args) - 1 - n_def if pk in [x.arg for x in (a.posonlyargs + a.args)[1:]] else True
-                        if has_default:
-                            problems.append(f"`{mname}({', '.join(params)})`: parameter `{pk}` has a default, so a recorded call may hold fewer than {k + 1} positional arguments")
-                        elif pk not in kw_out:
-                            problems.append(f"`{mname}`: parameter `{pk}` may have been passed by keyword on this path (no `'{pk}' in kwargs` test excludes it)")
-                    key = f"{g.short}|{norm(n)}|positional-argument-present"
-                    rep.check(not problems, "ARGS", key, f"`{norm(n)}` is read only on paths where argument {k} of the replayed call is positional and mandatory",
-                              f"{g.short}: `{norm(n)}` indexes the positional arguments of a recorded call, but {problems[0] if problems else ''} -- the replay raises IndexError instead of switching the device", E.where(g, n))
+    # The replay rewrites recorded calls: positional indexes into them must be safe (pstatic/callargs.py)
+    from .. import callargs
+
+    scopes = [g for top in (sw, E.method(SEQ, "switch_register")) for g in [top] + list(top.nested.values())]
+    extra = callargs.check(E, rep, scopes, "ARGS")
     rep.floor("ARGS", 4)
-    return {"timing_fields": {k: v[:3] for k, v in sorted(timing.items())}, "compared_under_strict": sorted(compared), "fields_covered": sorted(covered), "whole_timeline_comparison": timeline_cmp, "eom_sample_comparison": eom_sample_cmp, "functions_analysed": len(visited)}
+    return {"timing_fields": {k: v[:3] for k, v in sorted(timing.items())}, "compared_under_strict": sorted(compared), "fields_covered": sorted(covered), "whole_timeline_comparison": timeline_cmp, "eom_sample_comparison": eom_sample_cmp, "functions_analysed": len(visited), **extra}
